@@ -435,9 +435,30 @@ def history(ctx, t, seed, steps):
             op = 'copy'
         elif rng.random() < 0.05:
             op = 'del'
+        elif rng.random() < 0.1:
+            op = 'handle'
         log.append((op, name, rv(v)))
         try:
-            if op == 'set':
+            if op == 'handle':
+                # everyday handling between two edits: conversions whose results the caller edits, copies,
+                # pickling, a frozen twin that is hashed and used as a key - or the message goes on as its own
+                # thawed / pickled / deep-copied self.  The set of attributes and their values stay as they are.
+                from .. import abuse
+                abuse.handle(m)
+                how = rng.choice(('stay', 'stay', 'thaw', 'pickle', 'deepcopy'))
+                if how == 'thaw':
+                    import mido.frozen as fz
+                    f = fz.freeze_message(m)
+                    hash(f)
+                    m = fz.thaw_message(f)
+                elif how == 'pickle':
+                    import pickle
+                    m = pickle.loads(pickle.dumps(m))
+                elif how == 'deepcopy':
+                    import copy
+                    m = copy.deepcopy(m)
+                expect = None
+            elif op == 'set':
                 setattr(m, name, v)
                 if expect:
                     model[name] = tuple(v) if name == 'data' else v
